@@ -71,8 +71,13 @@ func main() {
 		for _, s := range hr.TruncSamples {
 			fmt.Fprintf(os.Stderr, "  TRUNCATED: %s\n", s)
 		}
-		for _, v := range hr.Violations {
-			fmt.Fprintf(os.Stderr, "  VIOLATION %s/%s [%s] %s tag=%q model=%v strings=%q\n", v.Harness, v.Site, v.Kind, v.Msg, v.Tag, v.Model, v.Strings)
+		for _, k := range sortedKeys(hr.ViolationClasses) {
+			fmt.Fprintf(os.Stderr, "  VIOLATION-CLASS %6d  %s\n", hr.ViolationClasses[k], k)
+		}
+		if os.Getenv("GOSYM_VERBOSE") != "" {
+			for _, v := range hr.Violations {
+				fmt.Fprintf(os.Stderr, "  VIOLATION %s/%s [%s] %s tag=%q model=%v strings=%q\n", v.Harness, v.Site, v.Kind, v.Msg, v.Tag, v.Model, v.Strings)
+			}
 		}
 		for _, s := range hr.SolverErrors {
 			fmt.Fprintf(os.Stderr, "  SOLVER-ERROR: %s\n", s)
